@@ -13,7 +13,8 @@ CHECKS = {
                  "compiled model is run against the real operators on generated expression trees. Arr.*_spec / expr_den lift this "
                  "to arrays with broadcasting and to every expression tree; broadcast_shape_is_numpy and binop_total show the "
                  "model's broadcasting is numpy's and never leaves its domain (no zero-length axis); array_pow_elementwise / "
-                 "array_pow_succeeds: ** with an array of exponents raises each broadcast element to its own exponent.",
+                 "array_pow_succeeds: ** with an array of exponents raises each broadcast element to its own exponent; program_den: "
+                 "the same for every program that also uses array exponents (Expr2/evalModel2 is what the driver evaluates).",
          "note": BASE_NOTE},
  "C14": {"ref": "5/C14", "technique": "Lean 4 proof by induction over option programs + exhaustive bounded history correspondence",
          "text": "with_restores is proved for every body (any nesting depth, set_options, exceptions, mutation of returned "
@@ -82,7 +83,10 @@ CHECKS = {
          "text": "alignIndet_den/_names/_WF, commonNamesAll_spec (union, sorted by index), alignExpo_den/_rows/_idem and "
                  "bcast_denAt (every index map) prove that alignment keeps the denotation and makes names/rows/shape "
                  "common; alignAll_common does the same for any number of operands at once (what concatenate/stack/gradient "
-                 "use); tuples of 1-4 polynomial-likes are aligned by the implementation and by the Lean aligners and "
+                 "use); align_polynomials_spec / align_shape_spec / align_indeterminants_spec / align_exponents_spec / "
+                 "align_polynomials_idempotent: the array-level aligners the driver runs fail iff the shapes do not broadcast, "
+                 "return a common shape, name tuple and ascending rows, keep every (broadcast) element, leave compliant "
+                 "operands untouched and are idempotent; tuples of 1-4 polynomial-likes are aligned by the implementation and by the Lean aligners and "
                  "compared row by row (0 drift), with idempotence and argument snapshots.",
          "note": BASE_NOTE},
  "C06": {"ref": "5/C06", "technique": "Lean 4 refinement proof (derivative rows = MvPolynomial.pderiv, incl. uint32 wrap) + model correspondence over option settings",
@@ -161,7 +165,8 @@ CHECKS = {
                  "coefficients, and str(p) must equal the Lean printer's rendering; to_sympy round trip for 0-d polynomials.",
          "note": BASE_NOTE + " str() of numpy scalars is a parameter of the printer model (the harness passes numpy's own text of every coefficient); numpy print options at defaults."},
  "C15": {"ref": "5/C15", "technique": "Lean 4 corollaries of the refinement theorems (stated for all retain flags / display orders) + correspondence over option settings x operation catalogue",
-         "text": "add_indep, mul_indep (also: never fails), clean_indep, align_indep, derivative_indep, display_indep: the "
+         "text": "add_indep, mul_indep (also: never fails), clean_indep, align_indep, derivative_indep, display_indep, program_indep "
+                 "(every program over + - neg pos * **k **array gives the same shape and elements under any two flag settings): the "
                  "refinement theorems of C01/C03/C04/C06/C16 hold for every flag value with an option-free right-hand side, so "
                  "any two settings give the same denotation. The run calls the ~95-entry operation catalogue under the 8 "
                  "single flips + 24 random settings (thorough: all 256) x display strings and compares denotation, shape, "
